@@ -223,3 +223,13 @@ Theorem C14_ema_pow2_binary64 : forall k p s xs xs', ema_new FOps p = Ok s -> Fo
 Proof. exact ema_pow2_covariant. Qed.
 Example C14_ema_run_ok_example : exists s, ema_new FOps 1 = Ok s /\ ema_run_ok 3 s [1.5%float; 2.5%float].
 Proof. exact ema_run_ok_example. Qed.
+
+(* ... and for whole streams of WeightedMovingAverage (weights and the denominator n(n+1)/2 are dimensionless: the same floats in both
+   runs); side conditions as for SMA, on sum_flat - old, + x, input * weight, sum (- sum_flat) + that, and the final quotient *)
+From TA Require Import Proofs.FloatScaleWma.
+Theorem C14_wma_stream_pow2_binary64 : forall k xs xs' s s', rel_wma k s s' -> Forall2 (scaled k) xs xs' -> wma_run_ok k s xs ->
+  Forall2 (scaled k) (res_outs (wma_next FOps) s xs) (res_outs (wma_next FOps) s' xs').
+Proof. exact wma_stream_pow2. Qed.
+Theorem C14_wma_pow2_binary64 : forall k p s xs xs', wma_new FOps p = Ok s -> Forall2 (scaled k) xs xs' -> wma_run_ok k s xs ->
+  Forall2 (scaled k) (res_outs (wma_next FOps) s xs) (res_outs (wma_next FOps) s xs').
+Proof. exact wma_pow2_covariant. Qed.
